@@ -24,7 +24,7 @@ TRUSTED = [
 ]
 RULE = (
     "histories with branch labels whose ids and labels come from a three-letter alphabet (forced prefix collisions) plus ordinary ones; "
-    "identifiers: every prefix of every id and label, head/heads/base, every <label>@{head,heads,base,id}, id+/-N and +/-N for N<=3; "
+    "identifiers: every prefix of every id and label, head/heads/base, every <label>@{head,heads,base,id}, id+/-N and +/-N for N<=3, and on long lines (13-16 revisions) for N in 9..13; "
     "non-trivial = the identifier resolves; distinct by (history, identifier, rows)"
 )
 ASSUMPTIONS = ["the history loads"]
@@ -54,15 +54,33 @@ def idents_for(rng, hist):
     return sorted(out)
 
 
-def rel_idents(rng, hist):
+def deep_history(rng):
+    """a long line (13-16 revisions, as a project's main line is) with a labelled side branch: offsets of two digits"""
+    n = rng.randint(13, 16)
+    ids = ["%02dc0f%02d" % (k, k) for k in range(n)]
+    hist = [{"id": x, "down": [ids[k - 1]] if k else [], "deps": [], "labels": (["trunk"] if k == 0 else [])} for k, x in enumerate(ids)]
+    fork = rng.randrange(1, 4)
+    hist.append({"id": "side01", "down": [ids[fork]], "deps": [], "labels": ["side"]})
+    hist.append({"id": "side02", "down": ["side01"], "deps": [], "labels": []})
+    rng.shuffle(hist)
+    return hist
+
+
+def rel_idents(rng, hist, deep=False):
     ids = [r["id"] for r in hist]
     labels = [l for r in hist for l in r["labels"]]
     out = []
+    small = (0, 1, 2, 3)
+    offs = (1, 2, 3)
+    if deep:
+        ids = rng.sample(ids, 4)
+        small = (1, 9, 10, 11, 12, 13)
+        offs = (9, 10, 11, 12)
     for i in ids:
-        for n in (0, 1, 2, 3):
+        for n in small:
             out.append("%s+%d" % (i, n))
             out.append("%s-%d" % (i, n))
-    for n in (1, 2, 3):
+    for n in offs:
         out.append("+%d" % n)
         out.append("-%d" % n)
         for l in labels:
@@ -125,17 +143,24 @@ def run(ctx, rng_name="main"):
                 for q in hist:
                     q["down"] = [new if x == old else x for x in q["down"]]
                     q["deps"] = [new if x == old else x for x in q["deps"]]
+        deep = g % 10 == 7
+        if deep:
+            hist = deep_history(rng)
         sd, info = rev_impl.load(hist)
         if sd is None:
             continue
         m = sd.revision_map
-        ctx.hist("graph", "collide" if collide else "plain")
+        ctx.hist("graph", "deep line" if deep else ("collide" if collide else "plain"))
         base = {"revs": hist, "normOrder": info["normOrder"]}
         for ident in idents_for(rng, hist):
             for single in (False, True):
                 cases.append(("resolve", base, {"ident": ident, "single": single}, impl_get(m, ident, single)))
         states = [[]] + [gen_graph.reachable_state(rng, hist) for _ in range(2)]
-        for ident in rel_idents(rng, hist):
+        if deep:
+            # states near the bottom and near the top of the line, so that +1x / -1x have room
+            line = sorted(r["id"] for r in hist if r["id"][2:5] == "c0f")
+            states = [[], [line[1]], [line[-1]], [line[-2], "side02"]]
+        for ident in rel_idents(rng, hist, deep):
             for rows in states:
                 for up in (True, False):
                     cases.append(("parse", base, {"target": ident, "rows": rows, "up": up}, impl_parse(m, rows, ident, up)))
